@@ -114,9 +114,6 @@ def run(ctx):
         det = {"workload_seed": wseed, "trace": what, "first_rejected_trace_line": ln,
                "offending_event": lines[ln - 1] if ln and ln <= len(lines) else None}
         for kind, sig, txt in (
-                ("stale-route-gas", "restart:poolmanager-route-cache:gas-used-of-tx-naming-pool-id-of-reverted-creation",
-                 "a node that restarted (or was initialised from an export) reports a different gas used than a node that did not, "
-                 "for a transaction naming the pool id a reverted pool creation had been given"),
                 ("import-gas", "import:gas-used:raw-store-layout-not-preserved",
                  "an importer reports a different gas used than the exporter for later transactions (code, data, events equal; "
                  "importers of one export agree among themselves)"),
